@@ -166,11 +166,17 @@ type Client struct {
 	// for all active subscriptions.
 	pendingAcks []*ua.SubscriptionAcknowledgement
 
-	// pausech pauses the subscription publish loop
-	pausech chan struct{}
+	// pubMux guards the state of the subscription publish loop
+	pubMux sync.Mutex
 
-	// resumech resumes subscription publish loop
-	resumech chan struct{}
+	// pubPaused is true while the subscription publish loop is paused
+	pubPaused bool
+
+	// pubGen counts the pause and resume requests
+	pubGen uint64
+
+	// pubWake wakes the subscription publish loop after a state change
+	pubWake chan struct{}
 
 	// mcancel stops subscription publish loop
 	mcancel func()
@@ -216,8 +222,7 @@ func NewClient(endpoint string, opts ...Option) (*Client, error) {
 		sechanErr:   make(chan error, 1),
 		subs:        make(map[uint32]*Subscription),
 		pendingAcks: make([]*ua.SubscriptionAcknowledgement, 0),
-		pausech:     make(chan struct{}, 2),
-		resumech:    make(chan struct{}, 2),
+		pubWake:     make(chan struct{}, 1),
 		stateCh:     cfg.stateCh,
 		stateFunc:   cfg.stateFunc,
 	}
